@@ -715,4 +715,149 @@ theorem msg_split' (msg : Bytes) : msg = msg.take 32 ++ (msg.drop 32).take 48 ++
 
 end Noise
 
+/-! ### truncation and extension of a conforming stream, outright -/
+
+/-- a well-formed header followed by too few body bytes: read error, nothing written -/
+theorem decLoop_short_body (A : Aead) (key aad : Bytes) (cs fuel ctr : Nat) (cf lastB b' : Bytes) (n : Nat)
+    (hcf : cf.length = 8) (hlb : lastB.length = 4) (hn : n ≤ cs) (hn32 : n < 2^32) (hb : b'.length < n + 16) :
+    decLoop A key aad cs (fuel+1) ctr (cf ++ lastB ++ be32 n ++ b') = ([], .ioRead) := by
+  have hN4 : (be32 n).length = 4 := rfl
+  have h16 : (cf ++ lastB ++ be32 n).length = 16 := by simp only [List.length_append, hcf, hlb, hN4]
+  have t16 : (cf ++ lastB ++ be32 n ++ b').take 16 = cf ++ lastB ++ be32 n := List.take_left' h16
+  have d16 : (cf ++ lastB ++ be32 n ++ b').drop 16 = b' := List.drop_left' h16
+  have tn : (cf ++ lastB ++ be32 n).drop 12 = be32 n :=
+    List.drop_left' (by simp only [List.length_append, hcf, hlb])
+  rw [decLoop_unfold, t16, d16, tn, beVal_be32 n hn32,
+    if_neg (by simp only [List.length_append, h16]; omega), if_neg (by omega), if_pos hb]
+
+/-- **Truncation, outright.**  Every proper prefix of a conforming stream is rejected with a read error, and what
+    was written before is a prefix of the chunks before the last one.  No cryptographic hypothesis. -/
+theorem decLoop_serialize_prefix (A : Aead) (hA : A.Lawful) (key aad : Bytes) (hk : key.length = 32) (cs : Nat)
+    (hcs : cs < 2^32) (cf : Nat → Bytes) (hcf : ∀ i, (cf i).length = 8) :
+    ∀ (cl : List Bytes) (ctr fuel : Nat) (F' : Bytes), cl ≠ [] → (∀ c ∈ cl, c.length ≤ cs) →
+      F' <+: serialize A key aad cf ctr cl → F' ≠ serialize A key aad cf ctr cl →
+      (decLoop A key aad cs fuel ctr F').2 = .ioRead ∧ (decLoop A key aad cs fuel ctr F').1 <+: cl.dropLast := by
+  intro cl
+  induction cl with
+  | nil => intro _ _ _ h; exact absurd rfl h
+  | cons c rest ih =>
+    intro ctr fuel F' _ hle hpre hprop
+    cases fuel with
+    | zero => exact ⟨rfl, List.nil_prefix⟩
+    | succ f =>
+      have hc : c.length ≤ cs := hle c (by simp)
+      -- the first record, as header ++ body, and what follows it
+      obtain ⟨last, S, hser, hS⟩ : ∃ (last : Bool) (S : Bytes),
+          serialize A key aad cf ctr (c :: rest) = record A key aad (cf ctr) ctr last c ++ S ∧
+          ((last = true ∧ rest = [] ∧ S = []) ∨
+           (last = false ∧ rest ≠ [] ∧ S = serialize A key aad cf (ctr+1) rest)) := by
+        cases rest with
+        | nil => exact ⟨true, [], by simp [serialize], Or.inl ⟨rfl, rfl, rfl⟩⟩
+        | cons c' cs' => exact ⟨false, _, by simp [serialize], Or.inr ⟨rfl, by simp, rfl⟩⟩
+      rw [hser] at hpre hprop
+      have hRl : (record A key aad (cf ctr) ctr last c).length = 32 + c.length :=
+        record_length A hA key aad (cf ctr) ctr last c hk (hcf ctr)
+      by_cases hlen : F'.length < 32 + c.length
+      · -- the first record itself is cut
+        have hnil : (decLoop A key aad cs (f+1) ctr F') = ([], .ioRead) := by
+          by_cases h16 : F'.length < 16
+          · rw [decLoop_unfold, if_pos h16]
+          · have hhdr : (cf ctr ++ be32 (if last then 1 else 0) ++ be32 c.length) <+:
+                record A key aad (cf ctr) ctr last c ++ S := by
+              exact ⟨A.enc key ctr (aad ++ be32 (if last then 1 else 0) ++ be32 c.length) c ++ S, by
+                simp only [record, List.append_assoc]⟩
+            have hh16 : (cf ctr ++ be32 (if last then 1 else 0) ++ be32 c.length).length = 16 := by
+              simp only [List.length_append, hcf ctr, be32_length]
+            obtain ⟨b', hb'⟩ := List.prefix_of_prefix_length_le hhdr hpre (by omega)
+            have hbl : b'.length < c.length + 16 := by
+              have := congrArg List.length hb'
+              rw [List.length_append, hh16] at this; omega
+            rw [← hb']
+            exact decLoop_short_body A key aad cs f ctr (cf ctr) _ b' c.length (hcf ctr) rfl hc (by omega) hbl
+        rw [hnil]; exact ⟨rfl, List.nil_prefix⟩
+      · -- the first record is complete
+        obtain ⟨tail', ht⟩ := List.prefix_of_prefix_length_le (List.prefix_append _ S) hpre (by omega)
+        rw [← ht] at hpre hprop ⊢
+        have htS : tail' <+: S := (List.prefix_append_right_inj _).mp hpre
+        have hne : tail' ≠ S := fun h => hprop (by rw [h])
+        rw [decLoop_record A hA key aad cs f ctr (cf ctr) last c tail' hk (hcf ctr) hc hcs]
+        rcases hS with ⟨rfl, _, rfl⟩ | ⟨rfl, hrest, rfl⟩
+        · exact absurd (List.prefix_nil.mp htS) hne
+        · have := ih (ctr+1) f tail' hrest (fun x hx => hle x (by simp [hx])) htS hne
+          simp only [Bool.false_eq_true, if_false]
+          refine ⟨this.1, ?_⟩
+          rw [List.dropLast_cons_of_ne_nil hrest]
+          exact (List.prefix_cons_inj c).mpr this.2
+
+/-- **Extension, outright.**  A conforming stream followed by anything non-empty: all chunks but the last are
+    released, then the trailing data is detected *before* the last chunk is written. -/
+theorem decLoop_serialize_append (A : Aead) (hA : A.Lawful) (key aad : Bytes) (hk : key.length = 32) (cs : Nat)
+    (hcs : cs < 2^32) (cf : Nat → Bytes) (hcf : ∀ i, (cf i).length = 8) (t : Bytes) (ht : t ≠ []) :
+    ∀ (cl : List Bytes) (ctr fuel : Nat), cl ≠ [] → (∀ c ∈ cl, c.length ≤ cs) →
+      (serialize A key aad cf ctr cl).length ≤ fuel →
+      decLoop A key aad cs fuel ctr (serialize A key aad cf ctr cl ++ t) = (cl.dropLast, .unexpectedData) := by
+  have htl : t.length ≠ 0 := fun h => ht (List.eq_nil_of_length_eq_zero h)
+  intro cl
+  induction cl with
+  | nil => intro _ _ h; exact absurd rfl h
+  | cons c rest ih =>
+    intro ctr fuel _ hle hfuel
+    have hc : c.length ≤ cs := hle c (by simp)
+    cases rest with
+    | nil =>
+      simp only [serialize] at hfuel ⊢
+      rw [record_length A hA _ _ _ _ _ _ hk (hcf ctr)] at hfuel
+      obtain ⟨f, rfl⟩ : ∃ f, fuel = f + 1 := ⟨fuel - 1, by omega⟩
+      rw [decLoop_record A hA key aad cs f ctr (cf ctr) true c t hk (hcf ctr) hc hcs]
+      simp [htl]
+    | cons c' cs' =>
+      simp only [serialize] at hfuel ⊢
+      rw [List.length_append, record_length A hA _ _ _ _ _ _ hk (hcf ctr)] at hfuel
+      obtain ⟨f, rfl⟩ : ∃ f, fuel = f + 1 := ⟨fuel - 1, by omega⟩
+      rw [List.append_assoc, decLoop_record A hA key aad cs f ctr (cf ctr) false c _ hk (hcf ctr) hc hcs]
+      have := ih (ctr+1) f (by simp) (fun x hx => hle x (by simp [hx])) (by omega)
+      simp [this]
+
+/-! ### the accepted shape is exactly the accepted set -/
+
+theorem rawRecord_length (A : Aead) (hA : A.Lawful) (key aad cf lastB : Bytes) (ctr : Nat) (pt : Bytes)
+    (hk : key.length = 32) (hcf : cf.length = 8) (hlb : lastB.length = 4) :
+    (rawRecord A key aad cf lastB ctr pt).length = 32 + pt.length := by
+  simp only [rawRecord, List.length_append, hcf, hlb, be32_length, hA.enc_length _ _ _ _ hk]; omega
+
+/-- **Converse of strictness.**  Every raw record sequence of the accepted shape *is* accepted and releases exactly
+    its plaintexts: the characterisation in `decLoop_strict` is exact. -/
+theorem decLoop_rawSerialize (A : Aead) (hA : A.Lawful) (key aad : Bytes) (hk : key.length = 32) (cs : Nat)
+    (hcs : cs < 2^32) (l : Bytes × Bytes × Bytes) (hl : beVal l.2.1 = 1) :
+    ∀ (init : List (Bytes × Bytes × Bytes)) (ctr fuel : Nat),
+      (∀ h ∈ init ++ [l], h.1.length = 8 ∧ h.2.1.length = 4 ∧ h.2.2.length ≤ cs) →
+      (∀ h ∈ init, beVal h.2.1 ≠ 1) →
+      (rawSerialize A key aad ctr (init ++ [l])).length ≤ fuel →
+      decLoop A key aad cs fuel ctr (rawSerialize A key aad ctr (init ++ [l])) = ((init ++ [l]).map (·.2.2), .ok) := by
+  intro init
+  induction init with
+  | nil =>
+    intro ctr fuel hall _ hfuel
+    obtain ⟨h8, h4, hpt⟩ := hall l (by simp)
+    simp only [List.nil_append, rawSerialize, List.append_nil] at hfuel ⊢
+    rw [rawRecord_length A hA key aad _ _ ctr _ hk h8 h4] at hfuel
+    obtain ⟨f, rfl⟩ : ∃ f, fuel = f + 1 := ⟨fuel - 1, by omega⟩
+    have := decLoop_frame A key aad cs f ctr l.1 l.2.1 (A.enc key ctr (aad ++ l.2.1 ++ be32 l.2.2.length) l.2.2) []
+      l.2.2.length h8 h4 hpt (by omega) (hA.enc_length _ _ _ _ hk)
+    rw [List.append_nil] at this
+    rw [rawRecord, this, hA.dec_enc _ _ _ _ hk]
+    simp [hl]
+  | cons h0 rest ih =>
+    intro ctr fuel hall hinit hfuel
+    obtain ⟨h8, h4, hpt⟩ := hall h0 (by simp)
+    simp only [List.cons_append, rawSerialize] at hfuel ⊢
+    rw [List.length_append, rawRecord_length A hA key aad _ _ ctr _ hk h8 h4] at hfuel
+    obtain ⟨f, rfl⟩ : ∃ f, fuel = f + 1 := ⟨fuel - 1, by omega⟩
+    rw [rawRecord, decLoop_frame A key aad cs f ctr h0.1 h0.2.1 _ _ h0.2.2.length h8 h4 hpt (by omega)
+      (hA.enc_length _ _ _ _ hk), hA.dec_enc _ _ _ _ hk]
+    have hne := hinit h0 (by simp)
+    have := ih (ctr+1) f (fun h hh => hall h (by simp only [List.cons_append, List.mem_cons]; exact Or.inr hh))
+      (fun h hh => hinit h (by simp [hh])) (by omega)
+    simp [hne, this]
+
 end Kestrel
